@@ -567,7 +567,8 @@ theorem wfVer_iff {ver : Str} (h : wfVer ver = true) : 61 ∉ ver := by
 /-- what `send_msg` does, step by step -/
 theorem frame_inv {ver : Str} {d : MsgDef} {se : Sess} {seq : Int} {time : Str} {m m' : Msg} {f : Bytes}
     (h : frame ver d se seq time m = .ok (f, m')) :
-    ∃ hd body, stampHeader d.hdr se seq time m.hdr = .ok hd ∧ m' = { m with hdr := hd } ∧
+    ∃ hd body, stampHeader d.hdr se seq time m.hdr = .ok hd ∧
+      m' = { m with hdr := dropKeys [8, 9, 35] hd, trl := dropKeys [10] m.trl } ∧
       encMsg d m' = .ok body ∧ prepare ver d.type body = .ok f := by
   unfold frame at h
   obtain ⟨_, _, h⟩ := bind_ok h
